@@ -576,3 +576,371 @@ def synth_macho(r):
     out = hdr + lc
     out += b"\0" * (max(fileoff, len(out)) + 0x100 - len(out))
     return out, {"x64": x64, "ncmds": len(cmds)}
+
+
+# ---------------------------------------------------------------------------------------
+# structure-aware corruptions (C20): walk the real tables of a file with plain `struct` reads and
+# corrupt ONE field at a time with boundary values
+# ---------------------------------------------------------------------------------------
+
+def _u(data, off, n):
+    if off < 0 or off + n > len(data):
+        raise IndexError(off)
+    return int.from_bytes(data[off:off + n], "little")
+
+
+def walk_pe(data):
+    """[(label, offset, size, kind)] of header / directory / table fields of a PE image"""
+    F = []
+    try:
+        lf = _u(data, 60, 4)
+        if data[:2] != b"MZ" or _u(data, lf, 4) != 0x4550:
+            return F
+        F.append(("dos", 60, 4, "field"))
+        o = lf + 4
+        for sz in (2, 2, 4, 4, 4, 2, 2):
+            F.append(("nt", o, sz, "field")); o += sz
+        nsec, optsz = _u(data, lf + 6, 2), _u(data, lf + 20, 2)
+        opt = lf + 24
+        plus = _u(data, opt, 2) == 0x20b
+        sizes = [2, 1, 1, 4, 4, 4, 4, 4] + ([8] if plus else [4, 4]) + [4, 4, 2, 2, 2, 2, 2, 2, 4, 4, 4, 4, 2, 2] + \
+                ([8, 8, 8, 8] if plus else [4, 4, 4, 4]) + [4, 4]
+        o = opt
+        for sz in sizes:
+            F.append(("opt", o, sz, "field")); o += sz
+        ndirs = min(_u(data, o - 4, 4), 16)
+        dirs = []
+        for i in range(ndirs):
+            dirs.append((_u(data, o, 4), _u(data, o + 4, 4)))
+            F.append(("dirs", o, 4, "rva")); F.append(("dirs", o + 4, 4, "field")); o += 8
+        st = opt + optsz
+        secs = []
+        for i in range(nsec):
+            b = st + 40 * i
+            vs, rva, rs, pr = _u(data, b + 8, 4), _u(data, b + 12, 4), _u(data, b + 16, 4), _u(data, b + 20, 4)
+            secs.append((rva, vs, rs, pr))
+            F.append(("sect", b, 8, "name"))
+            for k, sz in enumerate((4, 4, 4, 4, 4, 4, 2, 2, 4)):
+                off = b + 8 + sum((4, 4, 4, 4, 4, 4, 2, 2, 4)[:k])
+                F.append(("sect", off, sz, "rva" if k in (1, 3) else "field"))
+
+        soh = _u(data, opt + 60, 4)          # SizeOfHeaders: RVAs below it are file offsets
+
+        def r2o(rva):
+            for (a, vs, rs, pr) in secs:
+                if a <= rva < a + max(vs, rs) and rva - a < rs:
+                    return pr + rva - a
+            if 0 < rva < min(soh, len(data)):
+                return rva
+            return None
+        esz = 8 if plus else 4
+        # imports
+        if len(dirs) > 1 and dirs[1][0]:
+            d = r2o(dirs[1][0])
+            n = 0
+            while d is not None and n < 64 and d + 20 <= len(data) and any(data[d:d + 20]):
+                for k in range(5):
+                    F.append(("impdesc", d + 4 * k, 4, "rva" if k in (0, 3, 4) else "field"))
+                for which in (0, 4):
+                    t = r2o(_u(data, d + 4 * which, 4)) if _u(data, d + 4 * which, 4) else None
+                    m = 0
+                    while t is not None and m < 256 and t + esz <= len(data) and _u(data, t, esz):
+                        F.append(("thunk", t, esz, "rva"))
+                        v = _u(data, t, esz)
+                        if not (v >> (8 * esz - 1)):
+                            h = r2o(v & 0x7fffffff)
+                            if h is not None and which == 0:
+                                F.append(("hintname", h, 2, "field"))
+                                F.append(("hintname", h + 2, 1, "byte"))
+                        t += esz; m += 1
+                    if t is not None and t + esz <= len(data):
+                        F.append(("thunk", t, esz, "rva"))          # the terminating null entry
+                nm = r2o(_u(data, d + 12, 4))
+                if nm is not None:
+                    F.append(("dllname", nm, 1, "byte"))
+                d += 20; n += 1
+        # exports
+        if dirs and dirs[0][0] and r2o(dirs[0][0]) is not None:
+            d = r2o(dirs[0][0]); o2 = d
+            for k, sz in enumerate((4, 4, 2, 2, 4, 4, 4, 4, 4, 4, 4)):
+                F.append(("export", o2, sz, "rva" if k in (4, 8, 9, 10) else "field")); o2 += sz
+        # base relocations
+        if len(dirs) > 5 and dirs[5][0] and r2o(dirs[5][0]) is not None:
+            d = r2o(dirs[5][0]); end = d + dirs[5][1]; n = 0
+            while d + 8 <= min(end, len(data)) and n < 16:
+                F.append(("reloc", d, 4, "rva")); F.append(("reloc", d + 4, 4, "field"))
+                bs = _u(data, d + 4, 4)
+                for k in range(min(4, max(0, (bs - 8) // 2))):
+                    F.append(("reloc", d + 8 + 2 * k, 2, "field"))
+                if bs < 8:
+                    break
+                d += bs; n += 1
+        # TLS, load config and the other directories: leading words of what they point at
+        for i, lab, nw in ((9, "tls", 6), (10, "loadcfg", 20), (2, "rsrc", 8), (6, "debug", 7), (11, "boundimp", 4), (13, "delayimp", 8)):
+            if len(dirs) > i and dirs[i][0] and r2o(dirs[i][0]) is not None:
+                d = r2o(dirs[i][0])
+                w = esz if lab == "tls" else 4
+                for k in range(nw):
+                    ww = 4 if (lab == "tls" and k >= 4) else w
+                    F.append((lab, d, ww, "rva")); d += ww
+    except (IndexError, struct.error):
+        pass
+    return [f for f in F if 0 <= f[1] and f[1] + f[2] <= len(data)]
+
+
+def walk_macho(data):
+    F = []
+    try:
+        magic = _u(data, 0, 4)
+        if magic not in (0xFEEDFACE, 0xFEEDFACF):
+            return F
+        q = magic == 0xFEEDFACF
+        hl = 32 if q else 28
+        for k in range(hl // 4):
+            F.append(("hdr", 4 * k, 4, "field"))
+        ncmds, off = _u(data, 16, 4), hl
+
+        def stream(label, o, n, cap=768):
+            for k in range(min(n, cap)):
+                F.append((label, o + k, 1, "opcode"))
+        for i in range(min(ncmds, 128)):
+            cmd, size = _u(data, off, 4), _u(data, off + 4, 4)
+            for k in range(min(size, 96) // 4):
+                F.append(("lc", off + 4 * k, 4, "field"))
+            w = lambda k: _u(data, off + 4 * k, 4)
+            c = cmd & 0x7fffffff
+            if c == 0x22 and size >= 48:
+                for lab, k in (("rebase", 2), ("bind", 4), ("weak_bind", 6), ("lazy_bind", 8), ("export", 10)):
+                    stream(lab, w(k), w(k + 1))
+            elif c == 0x2 and size >= 24:
+                symoff, nsyms, stroff, strsize = w(2), w(3), w(4), w(5)
+                es = 16 if q else 12
+                for j in list(range(min(nsyms, 48))) + list(range(max(48, nsyms - 8), nsyms)):
+                    b = symoff + es * j
+                    F.append(("nlist", b, 4, "field")); F.append(("nlist", b + 4, 1, "byte")); F.append(("nlist", b + 5, 1, "byte"))
+                    F.append(("nlist", b + 6, 2, "field")); F.append(("nlist", b + 8, es - 8, "field"))
+                for k in range(0, min(strsize, 4096), 37):
+                    F.append(("strtab", stroff + k, 1, "byte"))
+                if strsize:
+                    F.append(("strtab", stroff + strsize - 1, 1, "byte"))
+            elif c == 0xb and size >= 80:
+                ioff, n = w(14), w(15)
+                for j in range(min(n, 64)):
+                    F.append(("indirect", ioff + 4 * j, 4, "field"))
+            elif c in (0x26, 0x29, 0x1d, 0x1e, 0x2b) and size >= 16:
+                stream("linkedit%x" % c, w(2), w(3), cap=160)
+            if size < 8:
+                break
+            off += size
+    except (IndexError, struct.error):
+        pass
+    return [f for f in F if 0 <= f[1] and f[1] + f[2] <= len(data)]
+
+
+def walk_elf(data):
+    F = []
+    try:
+        if data[:4] != b"\x7fELF":
+            return F
+        x64, be = data[4] == 2, data[5] == 2
+        o = ">" if be else "<"
+        A = 8 if x64 else 4
+        def u(off, n):
+            if off < 0 or off + n > len(data):
+                raise IndexError(off)
+            return int.from_bytes(data[off:off + n], "big" if be else "little")
+        for k in range(4, 9):
+            F.append(("ident", k, 1, "byte"))
+        off = 16
+        for sz in (2, 2, 4, A, A, A, 4, 2, 2, 2, 2, 2, 2):
+            F.append(("ehdr", off, sz, "field")); off += sz
+        base = 24
+        phoff, shoff = u(base + A, A), u(base + 2 * A, A)
+        e = base + 3 * A + 4
+        phes, phn, shes, shn = u(e + 2, 2), u(e + 4, 2), u(e + 6, 2), u(e + 8, 2)
+        ph = (4, 4, 8, 8, 8, 8, 8, 8) if x64 else (4,) * 8
+        for i in range(min(phn, 32) if phoff else 0):
+            off = phoff + i * phes
+            for sz in ph:
+                F.append(("phdr", off, sz, "field")); off += sz
+        sh = (4, 4, A, A, A, A, 4, 4, A, A)
+        for i in range(min(shn, 64) if shoff else 0):
+            b = shoff + i * shes
+            off = b
+            for sz in sh:
+                F.append(("shdr", off, sz, "field")); off += sz
+            ty = u(b + 4, 4)
+            so, ss, es = u(b + 8 + 2 * A, A), u(b + 8 + 3 * A, A), u(b + 16 + 5 * A, A)
+            if ty in (2, 11) and es:
+                lay = (4, 1, 1, 2, 8, 8) if x64 else (4, 4, 4, 1, 1, 2)
+                lab = "sym" if ty == 2 else "dynsym"
+            elif ty in (4, 9) and es:
+                lay = (A,) * (3 if ty == 4 else 2); lab = "rel"
+            elif ty == 6 and es:
+                lay = (A, A); lab = "dyn"
+            elif ty == 3:
+                for k in range(0, min(ss, 2048), 29):
+                    F.append(("strtab", so + k, 1, "byte"))
+                if ss:
+                    F.append(("strtab", so + ss - 1, 1, "byte"))
+                continue
+            else:
+                continue
+            n = ss // es
+            for j in list(range(min(n, 40))) + list(range(max(40, n - 4), n)):
+                off = so + j * es
+                for sz in lay:
+                    F.append((lab, off, sz, "byte" if sz == 1 else "field")); off += sz
+    except (IndexError, struct.error):
+        pass
+    return [f for f in F if 0 <= f[1] and f[1] + f[2] <= len(data)]
+
+
+def boundary_values(data, off, size, kind, be=False):
+    """the values one field is set to (all different from the current one)"""
+    order = "big" if be else "little"
+    old = int.from_bytes(data[off:off + size], order)
+    top = (1 << (8 * size)) - 1
+    if kind == "opcode":
+        vals = [hn | (old & 0x0f) for hn in range(0, 0x100, 0x10)] + [0x00, 0xff, 0x80, 0x7f]
+    elif kind == "byte":
+        vals = [0, 0xff, 0x80, 0x7f, old ^ 1, old ^ 0x10]
+    elif kind == "name":
+        vals = [0, top, int.from_bytes(b"\xff\xfe/4\0\0\0\0"[:size], order)]
+    else:
+        vals = [0, 1, top, top >> 1, (top >> 1) + 1, old + 1, old - 1, len(data), len(data) - 1, old ^ (1 << (8 * size - 1))]
+        if size >= 4:
+            vals += [0x7fff0000, 0x80000000, 0xffff, 0x10000, 0xfffffff0, old + 0x1000, 0x7fffffff00000000 & top]
+        if size == 2:
+            vals += [0x7fff, 0xfff1]
+    out = []
+    for v in vals:
+        v &= top
+        if v != old and v not in out:
+            out.append(v)
+    return out
+
+
+def apply_field(data, off, size, value, be=False):
+    b = bytearray(data)
+    b[off:off + size] = int(value).to_bytes(size, "big" if be else "little")
+    return bytes(b)
+
+
+def structure_corruptions(r, data, fmt, quota=None):
+    """yield (label, description, mutated bytes). quota=None: every field × every boundary value;
+    quota=k: per label, k seeded fields, the boundary values dealt out in rotation."""
+    walker = {"pe": walk_pe, "macho": walk_macho, "elf": walk_elf}[fmt]
+    be = fmt == "elf" and data[5:6] == b"\x02"
+    F = walker(data)
+    bylabel = {}
+    for f in F:
+        bylabel.setdefault(f[0], []).append(f)
+    for lab in sorted(bylabel):
+        fs = bylabel[lab]
+        q = quota
+        if q is not None and fs[0][3] in ("opcode", "rva"):
+            q *= 4          # opcode streams and RVA-valued fields are where one value out of many matters
+        if q is not None and len(fs) > q:
+            fs = [fs[i] for i in sorted(r.sample(range(len(fs)), q))]
+        turn = r.randrange(64)
+        for (l, off, size, kind) in fs:
+            vals = boundary_values(data, off, size, kind, be)
+            if not vals:
+                continue
+            if quota is not None:
+                # rotate through the values so that each of them is used within a label
+                vals = [vals[turn % len(vals)]]
+                turn += 1
+            for v in vals:
+                yield lab, "%s@%#x/%d:=%#x" % (lab, off, size, v), apply_field(data, off, size, v, be)
+
+
+def synth_pe_imports(r):
+    """a small PE32 / PE32+ image with a real import table (descriptors, lookup tables, IAT, hint/name
+    entries, dll names) in an .idata section, an export directory and a base relocation block."""
+    plus = r.random() < 0.4
+    esz = 8 if plus else 4
+    falign, salign = 0x200, 0x1000
+    base = 0x140000000 if plus else 0x400000
+    lfanew = 0x80
+    ndll = r.randint(1, 3)
+    idata_rva = 0x2000
+    blob = bytearray()
+    def here():
+        return idata_rva + len(blob)
+    desc_off = 0
+    blob += b"\0" * (20 * (ndll + 1))
+    descs = []
+    for d in range(ndll):
+        nf = r.randint(1, 5)
+        names = []
+        for k in range(nf):
+            if r.random() < 0.8:
+                rv = here()
+                blob += struct.pack("<H", r.getrandbits(10)) + r.choice([b"ExitProcess", b"GetLastError", b"malloc", b"puts", b"CreateFileW"]) + b"\0"
+                if len(blob) % 2:
+                    blob += b"\0"
+                names.append(rv)
+            else:
+                names.append((1 << (8 * esz - 1)) | r.randint(1, 500))
+        while len(blob) % esz:
+            blob += b"\0"
+        ilt = here()
+        for v in names:
+            blob += int(v).to_bytes(esz, "little")
+        blob += b"\0" * esz
+        iat = here()
+        for v in names:
+            blob += int(v).to_bytes(esz, "little")
+        blob += b"\0" * esz
+        nm = here()
+        blob += r.choice([b"KERNEL32.dll", b"msvcrt.dll", b"USER32.dll"]) + b"\0"
+        descs.append((ilt if r.random() < 0.85 else 0, r.getrandbits(32) if r.random() < 0.2 else 0, 0, nm, iat))
+    for i, dsc in enumerate(descs):
+        blob[20 * i:20 * i + 20] = struct.pack("<IIIII", *dsc)
+    imp_size = 20 * (ndll + 1)
+    # export directory
+    while len(blob) % 4:
+        blob += b"\0"
+    exp_rva = here()
+    ename = exp_rva + 40
+    blob += struct.pack("<IIHHIIIIIII", 0, 0, 0, 0, ename, 1, 1, 1, ename + 8, ename + 12, ename + 16)
+    blob += b"x.dll\0\0\0" + struct.pack("<I", 0x1000) + struct.pack("<I", ename + 18) + struct.pack("<H", 0) + b"f\0"
+    exp_size = here() - exp_rva
+    while len(blob) % 4:
+        blob += b"\0"
+    rel_rva = here()
+    blob += struct.pack("<IIHHHH", 0x1000, 16, 0x3000, 0x3004, 0x3008, 0)
+    rel_size = 16
+    text = bytes(r.getrandbits(8) for _ in range(0x40))
+    secs = [(b".text", 0x1000, text, 0x60000020), (b".idata", idata_rva, bytes(blob), 0xC0000040)]
+    nsec = len(secs)
+    optsize = (112 if plus else 96) + 16 * 8
+    hdr_end = lfanew + 24 + optsize + 40 * nsec
+    soh = (hdr_end + falign - 1) // falign * falign
+    dirs = [(0, 0)] * 16
+    dirs[0] = (exp_rva, exp_size)
+    dirs[1] = (idata_rva, imp_size)
+    dirs[5] = (rel_rva, rel_size)
+    dos = b"MZ" + b"\0" * 58 + struct.pack("<I", lfanew)
+    nt = struct.pack("<IHHIIIHH", 0x4550, 0x8664 if plus else 0x14c, nsec, 0, 0, 0, optsize, 0x102)
+    if plus:
+        o = struct.pack("<HBBIIIII", 0x20b, 14, 0, 0x200, 0x200, 0, 0x1000, 0x1000)
+        o += struct.pack("<QIIHHHHHHIIIIHHQQQQII", base, salign, falign, 6, 0, 0, 0, 6, 0, 0, 0x4000, soh, 0, 3, 0x8160,
+                         0x100000, 0x1000, 0x100000, 0x1000, 0, 16)
+    else:
+        o = struct.pack("<HBBIIIIII", 0x10b, 14, 0, 0x200, 0x200, 0, 0x1000, 0x1000, 0x2000)
+        o += struct.pack("<IIIHHHHHHIIIIHHIIIIII", base, salign, falign, 6, 0, 0, 0, 6, 0, 0, 0x4000, soh, 0, 3, 0x8160,
+                         0x100000, 0x1000, 0x100000, 0x1000, 0, 16)
+    o += b"".join(struct.pack("<II", a, b) for a, b in dirs)
+    st = b""
+    raw = soh
+    body = b""
+    for (nm, rva, content, ch) in secs:
+        rs = (len(content) + falign - 1) // falign * falign
+        st += struct.pack("<8sIIIIIIHHI", nm.ljust(8, b"\0"), len(content), rva, rs, raw, 0, 0, 0, 0, ch)
+        body += content.ljust(rs, b"\0")
+        raw += rs
+    out = (dos + b"\0" * (lfanew - 64) + nt + o + st).ljust(soh, b"\0") + body
+    return out, {"plus": plus, "ndll": ndll, "imports": True}
